@@ -5,4 +5,8 @@ from ..scen_limiter import limiter
 
 def run(ctx):
     collectors(ctx)
-    limiter(ctx, {'lifecycle'})      # the group is emitted behind --skip/--take only if the limiter forwards complete()
+    limiter(ctx, {'lifecycle'})
+    from ..scen_go import go_chain
+    go_chain(ctx, want=('go.complete',))      # end of input reaches the collector whatever was read (empty input, --take 0, scalars only)
+    from ..scen_sorter import sorter
+    sorter(ctx, want_order=True, want_topn=True)     # a sorter in front of the collector forwards complete() after flushing      # the group is emitted behind --skip/--take only if the limiter forwards complete()
